@@ -326,7 +326,7 @@ func runC19(ctx *Ctx) {
 		ctx.SetExhaustive(true)
 		ctx.Note("package-level checks are a finite enumeration over all linked generated packages; value-level checks are sampled by rapid")
 	}
-	n := ctx.N(600, 12000)
+	n := ctx.N(1500, 15000)
 	for _, t := range ctx.types() {
 		t := t
 		ctx.CheckRapid(string(t.Name), n, func(rt *rapid.T) *Case {
